@@ -904,3 +904,108 @@ def schedule_task(case, rp):
                                                scattered=scattered, colo_history=colo, node_offset=n % nn),
                                     found_by='small-scope native enumeration (%d cases)' % n)
     return dict(confirmed=False, detail='%d small node-list / request cases hold natively' % n)
+
+
+@builder('agent/scheduler/continuous.py:Continuous._iterate_nodes')
+def iterate_nodes(case, rp):
+    n = 0
+    for nn in range(0, 5):
+        for off in range(0, max(nn, 1)):
+            n += 1
+            c = mk_continuous(rp, [{'index': i} for i in range(nn)])
+            c._node_offset = off
+            got = [x['index'] for x in c._iterate_nodes()]
+            want = [(off + i) % nn for i in range(nn)]
+            if got != want:
+                return dict(confirmed=True, detail='yielded %s, expected every node '
+                            'once from the offset: %s' % (got, want),
+                            input=dict(n_nodes=nn, node_offset=off),
+                            found_by='small-scope native enumeration (%d cases)' % n)
+    return dict(confirmed=False, detail='%d cases hold natively' % n)
+
+
+# ------------------------------------------------------------------------------
+# C01 / C03: grant and release on the node list
+#
+class _FakeQueue:
+    def __init__(self, bulks): self.bulks = list(bulks)
+    def get(self, timeout=None):
+        import queue
+        if not self.bulks: raise queue.Empty()
+        return self.bulks.pop(0)
+
+
+def sched_roundtrip(rp, nodes, cpn, gpn, task, **kw):
+    """grant a task, check what was marked, release it, compare with before"""
+    c = mk_sched(rp, copy.deepcopy(nodes), cpn, gpn, **kw)
+    c._active_cnt = 1              # something else is running: no "never" failure
+    c.slot_status = lambda *a, **k: None
+    before = copy.deepcopy(c.nodes)
+    t = copy.deepcopy(task)
+    try:
+        ok = c._try_allocation(t)
+    except (AssertionError, ValueError, RuntimeError):
+        if c.nodes != before: return ['a rejected task changed the node list']
+        return []
+    except Exception as e:
+        return ['_try_allocation raised %r' % e]
+    probs = []
+    if not ok:
+        if c.nodes != before or c._active_cnt != 1:
+            probs.append('a task that was not placed changed the scheduler state')
+        return probs
+    if c._active_cnt != 2: probs.append('_active_cnt is %d after one grant' % c._active_cnt)
+    probs += check_placement(before, t['slots'], t['description'])
+    named_c = set((s['node_index'], ro['index']) for s in t['slots'] for ro in s['cores'])
+    named_g = set((s['node_index'], ro['index']) for s in t['slots'] for ro in s['gpus'])
+    for nb, na in zip(before, c.nodes):
+        for i, (b, a) in enumerate(zip(nb['cores'], na['cores'])):
+            if (nb['index'], i) in named_c:
+                if a != 1.0: probs.append('granted core %d of node %d not marked busy' % (i, nb['index']))
+            elif a != b: probs.append('core %d of node %d changed without being granted' % (i, nb['index']))
+        for i, (b, a) in enumerate(zip(nb['gpus'], na['gpus'])):
+            if (nb['index'], i) in named_g:
+                if a != 1.0: probs.append('granted gpu %d of node %d not marked busy' % (i, nb['index']))
+            elif a != b: probs.append('gpu %d of node %d changed without being granted' % (i, nb['index']))
+        held = sum(s['lfs'] for s in t['slots'] if s['node_index'] == nb['index'])
+        if na['lfs'] != nb['lfs'] - held: probs.append('node %d lfs %d -> %d, %d held' % (nb['index'], nb['lfs'], na['lfs'], held))
+        if na['lfs'] < 0 or na['mem'] < 0: probs.append('node %d lfs/mem negative' % nb['index'])
+    # release through the real completion path
+    c._queue_unsched = _FakeQueue([[t]])
+    c._term = _Event()
+    c._refresh_ts_map = lambda: None
+    try:
+        c._unschedule_completed()
+    except Exception as e:
+        return probs + ['_unschedule_completed raised %r' % e]
+    if c.nodes != before:
+        probs.append('grant + release does not restore the node list')
+    if c._active_cnt != 1:
+        probs.append('_active_cnt is %d after grant + release (was 1)' % c._active_cnt)
+    return probs
+
+
+@builder('agent/scheduler/base.py:AgentSchedulingComponent._change_slot_states',
+         'agent/scheduler/base.py:AgentSchedulingComponent._try_allocation',
+         'agent/scheduler/base.py:AgentSchedulingComponent._unschedule_completed',
+         'agent/scheduler/continuous.py:Continuous.unschedule_task',
+         'utils/misc.py:convert_slots_to_new')
+def sched_ops(case, rp):
+    import itertools
+    n = 0
+    cells = (0.0, 1.0, None)
+    for nn in (1, 2):
+        for occ in itertools.product(cells, repeat=2 * nn):
+            nodes = [{'index': 5 + i, 'name': 'n%d' % i, 'cores': list(occ[2*i:2*i+2]),
+                      'gpus': [0.0, None], 'lfs': 100, 'mem': 64} for i in range(nn)]
+            for ranks in (1, 2, 3):
+                for cpr, gpr, lfs in ((1, 0.0, 0), (2, 0.0, 0), (1, 1.0, 0), (1, 0.5, 0), (1, 0.0, 40)):
+                    n += 1
+                    task = mk_atask(ranks, cpr, gpr, lfs, lfs // 2)
+                    probs = sched_roundtrip(rp, nodes, 2, 2, task, lfs_pn=100, mem_pn=64,
+                                            offset=n % nn)
+                    if probs:
+                        return dict(confirmed=True, detail='; '.join(probs[:3]),
+                                    input=dict(nodes=nodes, task=task['description']),
+                                    found_by='small-scope native enumeration (%d cases)' % n)
+    return dict(confirmed=False, detail='%d grant/release round trips hold natively' % n)
